@@ -422,3 +422,15 @@ func (m *MountDst) Mount(ctx context.Context, desc ocispec.Descriptor, fromRepo 
 // MountCandidates are the candidate lists MountFrom hands out in the mount scenarios: none, one,
 // two, the same repository twice, and a list ending in a blank name.
 var MountCandidates = [][]string{nil, {"repo/a"}, {"repo/a", "repo/b"}, {"repo/a", "repo/a"}, {"repo/a", ""}}
+
+// RefDst is a destination that also implements registry.ReferencePusher (as a remote repository does):
+// Copy then pushes the root together with its reference. The push is counted like any other push.
+type RefDst struct{ Dst }
+
+func (t *RefDst) PushReference(ctx context.Context, d ocispec.Descriptor, r io.Reader, reference string) error {
+	if err := t.Dst.Push(ctx, d, r); err != nil {
+		return err
+	}
+	t.W.Log("tag:" + reference)
+	return t.Inner.Tag(ctx, d, reference)
+}
